@@ -186,6 +186,7 @@ private:
   Context& _root;
   container _declarations;
   FunctorPtr _backed;
+  unsigned _backed_id = nid;
 };
 
 }
